@@ -12,7 +12,7 @@
           and the order in which sets are printed follow `less`.
   Part 3: the rules before the repairs violate trichotomy (witnesses).
 -/
-import Arrai.C06.Clients
+import Arrai.C06.Den
 import Arrai.Facts.Generated
 
 namespace Arrai.C06.Theorems
@@ -98,6 +98,53 @@ theorem derived_ops_meaning (a b : Rep) :
     opLe a b = (less a b || equal a b) ∧ opGe a b = (less b a || equal a b) ∧
     opGt a b = less b a ∧ opNe a b = !equal a b ∧ opLt a b = less a b ∧ opEq a b = equal a b := by
   rcases trichotomy a b with h | h | h <;> simp [opLe, opGe, opGt, opNe, opLt, opEq, h.1, h.2.1, h.2.2]
+
+/-! ### Part 1b — canonical-form equality and the meaning of values -/
+
+/-- `=` (canonical-form equality) is sound for the meaning: values that are `=` denote the same `V`
+(tuples and relation headings without repeated names — a frozen map cannot repeat a key) -/
+theorem equal_sound (a b : Rep) (na : nodupNames a = true) (nb : nodupNames b = true) (h : equal a b = true) :
+    den a = den b := key_sound a na b nb (by simpa [equal, K.beq_iff] using h)
+
+/-- hence: if neither `a < b` nor `b < a`, the two values mean the same -/
+theorem incomparable_same_meaning (a b : Rep) (na : nodupNames a = true) (nb : nodupNames b = true)
+    (h₁ : less a b = false) (h₂ : less b a = false) : den a = den b := by
+  apply equal_sound a b na nb
+  rcases trichotomy a b with h | h | h
+  · rw [h.1] at h₁; cases h₁
+  · exact h.2.1
+  · rw [h.2.2] at h₂; cases h₂
+
+/-- the hypothesis is satisfiable non-trivially: `{(b: 1, a: {2, 3}), [4]}` and the same value enumerated otherwise -/
+example : nodupNames (.union [.relation ["a", "b"] [[.generic [.num 2, .num 3], .num 1]], .generic [.array [some (.num 4)] 0]]) = true ∧
+    equal (.union [.relation ["a", "b"] [[.generic [.num 2, .num 3], .num 1]], .generic [.array [some (.num 4)] 0]])
+          (.union [.generic [.array [some (.num 4)] 0], .relation ["b", "a"] [[.num 1, .generic [.num 3, .num 2]]]]) = true := by
+  decide
+
+/-- FULL trichotomy with the meaning in the middle (not proved here): for canonical representations — the ones the
+constructors of /repo/rel build (C02: one representation per value, up to enumeration order) — exactly one of
+`a < b`, `den a = den b`, `b < a`.  The missing half, `a < b → den a ≠ den b`, is the uniqueness of canonical
+representations, which is property C02's theorem. -/
+def trichotomy_den_full (Canonical : Rep → Prop) : Prop :=
+  ∀ a b : Rep, Canonical a → Canonical b →
+    (less a b = true ∧ den a ≠ den b ∧ less b a = false) ∨
+    (less a b = false ∧ den a = den b ∧ less b a = false) ∨
+    (less a b = false ∧ den a ≠ den b ∧ less b a = true)
+
+/-- proved half of it: at most one of `a < b`, `b < a`; and if neither, the meanings agree -/
+theorem trichotomy_den_partial (a b : Rep) (na : nodupNames a = true) (nb : nodupNames b = true) :
+    (less a b = true ∧ less b a = false) ∨ (less a b = false ∧ den a = den b ∧ less b a = false) ∨
+    (less a b = false ∧ less b a = true) := by
+  rcases trichotomy a b with h | h | h
+  · exact Or.inl ⟨h.1, h.2.2⟩
+  · exact Or.inr (Or.inl ⟨h.1, equal_sound a b na nb h.2.1, h.2.2⟩)
+  · exact Or.inr (Or.inr ⟨h.1, h.2.2⟩)
+
+/-- the canonicity hypothesis of the full statement cannot be dropped: a non-canonical representation (a repeated
+member, which a frozen set cannot hold) is ordered against the canonical one although they mean the same -/
+theorem trichotomy_den_needs_canonical :
+    less (.generic [.num 1]) (.generic [.num 1, .num 1]) = true ∧
+    den (.generic [.num 1]) = den (.generic [.num 1, .num 1]) := by decide
 
 /-! ### Part 2 — sorting follows the order -/
 
